@@ -1,7 +1,7 @@
 /-
   Driver for the name-server model (C14).  One history per line:
 
-    hist <backend mem|sql|spec> <baduris> <retable> <op> <op> …     →  one result token per op
+    hist <backend mem|sql|spec|memsrc|sqlsrc> <baduris> <retable> <op> <op> …     →  one result token per op
     like <pattern> <name>                                          →  1 | 0     (sqlite LIKE model)
 
   str      : comma separated code points, "-" = empty;  optional str: "~" = None
@@ -16,6 +16,7 @@
 -/
 import PyroModel.NameServer
 import PyroModel.Sql
+import PyroModel.Gen.C14Src
 import Driver.Util
 
 open Pyro.NS Pyro.NS.Sql Driver
@@ -110,7 +111,8 @@ def splitFault (tok : String) : Option (String × Option Nat) :=
   | [o, k] => k.toNat?.map fun k => (o, some k)
   | _ => none
 
-def runMem (env : Env) (tab : List ReEntry) : List String → MemDb → List String → List String
+/-- `step` = the hand-written model `nsStep memStore env` or the transcription `nsStepSrc memStore env` (backend memsrc) -/
+def runMem (step : Op → MemDb → Res × MemDb) (tab : List ReEntry) : List String → MemDb → List String → List String
   | [], _, acc => acc.reverse
   | tok :: rest, s, acc =>
     match splitFault tok with
@@ -118,8 +120,8 @@ def runMem (env : Env) (tab : List ReEntry) : List String → MemDb → List Str
       match pOp o with
       | some op =>
         if opRegexKnown tab op then
-          let (r, s') := nsStep memStore env op s
-          runMem env tab rest s' ((showRes r ++ "#0") :: acc)
+          let (r, s') := step op s
+          runMem step tab rest s' ((showRes r ++ "#0") :: acc)
         else ["bad-regex"]
       | none => ["bad-op"]
     | _ => ["bad-op"]
@@ -138,22 +140,22 @@ def runSpec (env : Env) (tab : List ReEntry) : List String → Spec → List Str
       | none => ["bad-op"]
     | _ => ["bad-op"]
 
-def runSql (env : Env) (tab : List ReEntry) : List String → SqlState → List String → List String
+def runSql (step : Op → SqlState → Res × SqlState) (tab : List ReEntry) : List String → SqlState → List String → List String
   | [], _, acc => acc.reverse
   | tok :: rest, s, acc =>
     match splitFault tok with
     | some (o, k) =>
-      if o == "reopen" then runSql env tab rest (reopen s) ("R" :: acc)
+      if o == "reopen" then runSql step tab rest (reopen s) ("R" :: acc)
       else
         match pOp o with
         | some op =>
           if opRegexKnown tab op then
             let f0 := k.getD bigFuel
-            let (r, s') := nsStep sqlStore env op ⟨s.db, some f0⟩
+            let (r, s') := step op ⟨s.db, some f0⟩
             let out := match r with
               | .err .storage => showRes r
               | _ => showRes r ++ s!"#{f0 - s'.fuel.getD 0}"
-            runSql env tab rest ⟨s'.db, none⟩ (out :: acc)
+            runSql step tab rest ⟨s'.db, none⟩ (out :: acc)
           else ["bad-regex"]
         | none => ["bad-op"]
     | none => ["bad-op"]
@@ -164,8 +166,10 @@ def step : List String → String
     | some bad, some tab =>
       let env := mkEnv bad tab
       let out :=
-        if backend == "mem" then runMem env tab ops [] []
-        else if backend == "sql" then runSql env tab ops ⟨Db.empty, none⟩ []
+        if backend == "mem" then runMem (nsStep memStore env) tab ops [] []
+        else if backend == "sql" then runSql (nsStep sqlStore env) tab ops ⟨Db.empty, none⟩ []
+        else if backend == "memsrc" then runMem (Pyro.Gen.C14Src.nsStepSrc memStore env) tab ops [] []
+        else if backend == "sqlsrc" then runSql (Pyro.Gen.C14Src.nsStepSrc sqlStore env) tab ops ⟨Db.empty, none⟩ []
         else if backend == "spec" then runSpec env tab ops [] []
         else ["bad-backend"]
       if out.isEmpty then "-" else " ".intercalate out
